@@ -275,11 +275,59 @@ static void recycle_classes_prog()
     pmc_outcome("x=%d y=%d", x, y);
 }
 
+// stack-size class "current": a task created with it runs on a stack of its creator's class (also when the
+// new task is first staged and only later turned into a thread object by a worker's scheduling loop)
+static void stacksize_current_prog()
+{
+    static St s;
+    s = St{};
+    g = &s;
+    int x = pmc_choose(3, 0), high = pmc_choose(2, 0), grandchild = pmc_choose(2, 0);
+    static long real_size[3], reported[3];
+    static int ran;
+    real_size[0] = real_size[1] = real_size[2] = reported[0] = reported[1] = reported[2] = ran = 0;
+    rt::config c;
+    c.workers = 2;
+    c.extra = {"pika.stacks.medium_size=0x40000"};
+    rt::start(c);
+    static const pika::execution::thread_stacksize cls[3] = {pika::execution::thread_stacksize::small_, pika::execution::thread_stacksize::medium, pika::execution::thread_stacksize::large};
+    static const char* key[3] = {"pika.stacks.small_size", "pika.stacks.medium_size", "pika.stacks.large_size"};
+    long configured = std::stol(pika::detail::get_config_entry(key[x], std::string("0")), nullptr, 0);
+    auto measure = [](int k) {
+        char *lo, *hi;
+        stack_range(lo, hi);
+        real_size[k] = (long) (hi - lo);
+        reported[k] = (long) pika::threads::detail::get_self_stacksize();
+        ++ran;
+    };
+    auto cur = [high] {
+        auto sc = rt::ex::with_stacksize(rt::ex::thread_pool_scheduler{}, pika::execution::thread_stacksize::current);
+        return rt::ex::with_priority(sc, high ? pika::execution::thread_priority::high : pika::execution::thread_priority::normal);
+    };
+    rt::spawn([&, x, grandchild] {
+        rt::tt::sync_wait(rt::ex::schedule(rt::ex::with_stacksize(rt::ex::thread_pool_scheduler{}, cls[x])) | rt::ex::then([&, grandchild] {
+            measure(0);
+            rt::tt::sync_wait(rt::ex::schedule(cur()) | rt::ex::then([&, grandchild] {
+                measure(1);
+                if (grandchild) rt::tt::sync_wait(rt::ex::schedule(cur()) | rt::ex::then([&] { measure(2); }));
+            }));
+        }));
+        ++g->finished;
+    });
+    rt::stop();
+    int n = 2 + grandchild;
+    PMC_ASSERT(s.finished == 1 && ran == n, "task-lost", "%d of %d tasks ran", ran, n);
+    for (int k = 0; k < n; ++k)
+        PMC_ASSERT(real_size[k] >= configured && reported[k] == configured, "wrong-stack-size", "generation %d of a task family of stack class %d (children created with stack size 'current', %s priority) runs on a stack of %ld bytes (reports %ld), configured for the class: %ld", k, x, high ? "high" : "normal", real_size[k], reported[k], configured);
+    pmc_outcome("x=%d high=%d", x, high);
+}
+
 int main(int argc, char** argv)
 {
     static const char* sites = "thread_data::(set_state_tagged|restore_state|set_state|rebind|init)|set_thread_state|set_active_state|scheduling_loop|recycle_thread|cleanup_terminated|create_thread_object|interrupt_thread";
     static const char* focus = "F-addr: whole thread_data of every task; F-site (rmw, cas): state transitions, scheduling_loop, recycle/cleanup of thread objects, interrupt_thread";
     static const pmc_spec specs[] = {
+        {"stacksize_current", stacksize_current_prog, 0, 1, 0.05, 0.05, 1, focus, sites, "rc"},
         {"recycle_across_stack_classes", recycle_classes_prog, 0, 1, 0.05, 0.05, 1, focus, sites, "rc"},
         {"canaries_small_2", canaries_prog<2, 0>, 1, 2, 0.3, 0.25, 1, focus, sites, "rc"},
         {"canaries_medium_2", canaries_prog<2, 1>, 1, 1, 0.1, 0.1, 1, focus, sites, "rc"},
